@@ -50,6 +50,70 @@ def deletion_matrix():
     return res
 
 
+LEX_WORDS = ["type", "service", "info", "get", "returns", "import", "syntax", "group", "prefix", "jwt", "middleware",
+             "timeout", "maxBytes", "api", "map", "any", "interface", "post", "handler", "doc", "server", "string",
+             "struct", "func", "go", "T"]
+LEX_STRINGS = ['""', '"a"', '"a\\"', '"a\\nb"', '"a`b"', '"//"', '"/*x*/"', '" "', '"%d"', '"\t"', '"é日本"', '"a\nb"',
+               '"@doc"', '"}"', '"\\""']
+LEX_TAGS = ["``", '`json:"a"`', "`a\\nb`", '`a"b`', "`a\nb`", "` `", "`\\`", "`//x`", "`/*x*/`", "`%d`", "`\t`", "`日本`",
+            "`'`", "`@doc`", "`}`", '`json:"a,optional" form:"b"`']
+LEX_PATHS = ["/", "/a", "/a/", "/a/b", "/:a", "/a-b", "/a_b", "/_a", "/a.b", "/a:b", "/:a-b", "/a-", "/-a", "//", "/a//b",
+             "/1", "/a1", "/1-2", "/a/:b/c-d", "/:1", "/api/v1.0", "/a/:b/", "/A-B-c", "/:a/:b", "/a-1"]
+LEX_SVALUES = ["0", "007", "1", "18446744073709551616", "1s", "1ms", "1µs", "1ns", "1m", "1h", "1h30m", "1h30m5s",
+               "1m5s10ms3µs7ns", "1s1s", "1.5s", "-1", "1_000", "0x10", "1e3", "1ss", "1sm", "3sx", "5ns3", "2h1ms",
+               "a", "a,b", "a-b", "a/b", "/a/b", "/a-b/c", "a.b", "a:b", '"s"', "`r`", "a,b,c", "a-b-c", "a/b-c/d", "/"]
+SVC = "service s {\n\t@handler h\n\tget /a\n}\n"
+
+
+def lexeme_matrix():
+    """names and lexemes as inputs, enumerated: keyword-like identifiers in every position where the
+    grammar has an identifier; string / raw-string forms in every position of a literal; route
+    paths; @server values (numbers, durations, lists, paths); white-space / encoding variants of one
+    program.  Valid or not is goctl's decision: the model must agree, a valid one must be formatted
+    correctly, an invalid one must be an error."""
+    res = []
+    for w in LEX_WORDS:
+        res += ["type %s {\n\tA int\n}\n" % w, "type T {\n\t%s int\n}\n" % w, "type T {\n\tA %s\n}\n" % w,
+                "type T {\n\t%s\n\tB int\n}\n" % w, "type T {\n\t*%s\n}\n" % w, "type T {\n\tA, %s int\n}\n" % w,
+                "type T map[%s]%s\n" % (w, w), "type T []*%s\n" % w, "type %s = int\n" % w, "type (\n\t%s int\n)\n" % w,
+                'info (\n\t%s: "x"\n)\n' % w,
+                "@server (\n\t%s: x\n)\n" % w + SVC, "@server (\n\tk: %s\n)\n" % w + SVC,
+                "@server (\n\tk: a,%s\n)\n" % w + SVC, "@server (\n\tk: %s-b\n)\n" % w + SVC,
+                "@server (\n\tk: /%s/b\n)\n" % w + SVC,
+                "service %s {\n\t@handler h\n\tget /a\n}\n" % w, "service %s-api {\n\t@handler h\n\tget /a\n}\n" % w,
+                "service s {\n\t@handler %s\n\tget /a\n}\n" % w, "service s {\n\t@handler h\n\t%s /a\n}\n" % w,
+                "service s {\n\t@handler h\n\tget /%s\n}\n" % w, "service s {\n\t@handler h\n\tget /:%s\n}\n" % w,
+                "service s {\n\t@handler h\n\tget /a-%s (T)\n}\n" % w, "service s {\n\t@handler h\n\tget /%s/b returns (T)\n}\n" % w,
+                "service s {\n\t@handler h\n\tget /a (%s)\n}\n" % w, "service s {\n\t@handler h\n\tget /a returns ([]%s)\n}\n" % w,
+                'service s {\n\t@doc (\n\t\t%s: "x"\n\t)\n\t@handler h\n\tget /a\n}\n' % w]
+    for v in LEX_STRINGS + LEX_TAGS:
+        res += ["syntax = %s\n" % v, "import %s\n" % v, "import (\n\t%s\n\t\"b\"\n)\n" % v,
+                "info (\n\ta: %s\n\tb: \"x\"\n)\n" % v, "type T {\n\tA int %s\n\tB int\n}\n" % v,
+                "type T {\n\tFoo %s\n}\n" % v,
+                "service s {\n\t@doc %s\n\t@handler h\n\tget /a\n}\n" % v,
+                "service s {\n\t@doc (\n\t\ta: %s\n\t\tb: \"y\"\n\t)\n\t@handler h\n\tget /a\n}\n" % v,
+                "@server (\n\tk: %s\n\tj: x\n)\n" % v + SVC]
+    for pth in LEX_PATHS:
+        res += ["service s {\n\t@handler h\n\tget %s\n}\n" % pth, "service s {\n\t@handler h\n\tget %s (T) returns (U)\n}\n" % pth,
+                "service s {\n\t@handler h\n\tget %s returns (U);\n\t@handler g\n\tpost %s\n}\n" % (pth, pth)]
+    for v in LEX_SVALUES:
+        res += ["@server (\n\tk: %s\n)\n" % v + SVC, "@server (\n\tk: %s\n\tj: %s\n)\n" % (v, v) + SVC]
+    base = ('// head\nsyntax = "v1"\n\ninfo (\n\ttitle: "t" // c\n)\n\ntype T {\n\tA int `json:"a"` // a\n\t/* b */\n\tB, C []string\n}\n\n'
+            '@server (\n\tprefix: /api/v1\n\ttimeout: 1h30m\n)\nservice s-api {\n\t@doc "d"\n\t@handler h\n\tget /a/:id (T) returns ([]T) // r\n}\n')
+    res += [base, base.replace("\n", "\r\n"), base.replace("\n", "\r"), base.replace("\t", "    "), base.replace(" ", "\t"),
+            base.replace("\n", " \n"), base.replace("\n", "\t\n"), "\ufeff" + base, base.replace("type T", "\ufefftype T"),
+            base.rstrip("\n"), base + "\n\n\n", base + "\x00", base.replace("type T", "\x00type T"), base.replace("\n\n", "\n\f\n"),
+            base.replace("\n\n", "\n\v\n"), base.replace("type T", "type\u00a0T"), base.replace("\n\n", "\n\u2028\n"),
+            base.replace("\n", "\n\n"), base.replace("\n", ""), base.replace("\n\t", " ").replace("\n", " ")]
+    seen = set()
+    out = []
+    for x in res:
+        if x not in seen and x.strip("\x00 \t\r\n") and x[0] != "\x00":
+            seen.add(x)
+            out.append(x)
+    return out
+
+
 class Gen:
     def __init__(self, rng, opts=None):
         self.r = rng
